@@ -122,6 +122,26 @@ func vLen(name string, max int) int {
 }
 
 func vIsEngine() bool           { return false }
+
+// vFoldEq: ASCII case-insensitive equality (reference for strings.EqualFold on ASCII input)
+func vFoldEq(a, b string) bool {
+	if len(a) != len(b) {
+		return false
+	}
+	for i := 0; i < len(a); i++ {
+		x, y := a[i], b[i]
+		if x >= 'A' && x <= 'Z' {
+			x += 'a' - 'A'
+		}
+		if y >= 'A' && y <= 'Z' {
+			y += 'a' - 'A'
+		}
+		if x != y {
+			return false
+		}
+	}
+	return true
+}
 func vDump(label string, s string) {}
 func vLateSched()               {}
 func vRunPending()              { time.Sleep(20 * time.Millisecond) }
